@@ -135,4 +135,29 @@ theorem pySlice_nonneg {α} (xs : List α) (st ln : Nat) :
 theorem ratLt_irrefl (a : Int) (b : Nat) : ratLt a b a b = false := by simp [ratLt]
 
 
+
+theorem pySlice_neg {α} (xs : List α) (k ln : Nat) (hk : 0 < k) (hk2 : k ≤ xs.length) :
+    pySlice xs (-(k : Int)) (if -(k : Int) < 0 ∧ 0 ≤ -(k : Int) + (ln : Int) then none else some (-(k : Int) + (ln : Int)))
+      = (xs.drop (xs.length - k)).take ln := by
+  have hneg : -(k : Int) < 0 := by omega
+  by_cases hc : 0 ≤ -(k : Int) + (ln : Int)
+  · have : (-(k : Int) < 0 ∧ 0 ≤ -(k : Int) + (ln : Int)) := ⟨hneg, hc⟩
+    rw [if_pos this]
+    simp only [pySlice, hneg, if_true]
+    have e1 : (max (-(k : Int) + (xs.length : Int)) 0).toNat = xs.length - k := by omega
+    have e2 : ((xs.length : Int)).toNat = xs.length := by omega
+    rw [e1, e2, List.take_length]
+    rw [List.take_of_length_le]
+    simp; omega
+  · have : ¬ (-(k : Int) < 0 ∧ 0 ≤ -(k : Int) + (ln : Int)) := fun h => hc h.2
+    have hlt : -(k : Int) + (ln : Int) < 0 := by omega
+    rw [if_neg this]
+    simp only [pySlice, hneg, hlt, if_true]
+    have e1 : (max (-(k : Int) + (xs.length : Int)) 0).toNat = xs.length - k := by omega
+    have e2 : (max (-(k : Int) + (ln : Int) + (xs.length : Int)) 0).toNat = xs.length - k + ln := by omega
+    rw [e1, e2, List.drop_take]
+    congr 1
+    omega
+
+
 end LiquidVerif.Filters
